@@ -15,6 +15,6 @@ hprop.install(globals(), hprop.HistoryProperty(
           "non-zero (station, plug, tariff) AND a session cut short by an instruction; distinct = sha1(world, op log)"),
     assumptions=hprop.COMMON_ASSUMPTIONS + ["tariff tables are complete (name every station and plug), so the C11 price-table defects cannot mask this property"],
     quick=(16, 60, 40), thorough=(16, 1500, 70),
-    instr_bias={"kinds": [2, 2, 2, 3, 3, 3, 4, 4, 4, 0, 0, 1, 5, 6, 7], "tclasses": [0, 1, 1, 2, 3, 5, 5]},
+    instr_bias={"throttle": True, "kinds": [2, 2, 2, 3, 3, 3, 4, 4, 4, 0, 0, 1, 5, 6, 7], "tclasses": [0, 1, 1, 2, 3, 5, 5]},
 ))
 FLOORS = {"quick": {"flag:two_nonzero_tariffs": 20}, "thorough": {"flag:two_nonzero_tariffs": 200}}
